@@ -11,6 +11,8 @@ package raft
 // every peer applies every entry, so the same Coq checker evaluates it.
 
 import (
+	"sync/atomic"
+	"errors"
 	"context"
 	"crypto/rand"
 	"encoding/json"
@@ -33,9 +35,10 @@ import (
 )
 
 type vR2Cmd struct {
-	Op   string   `json:"op"`   // pin unpin down up snap obs
+	Op   string   `json:"op"`   // pin unpin down up snap obs rpcfail
 	Node int      `json:"node"` // relative to the leader
 	Pin  *vC01Pin `json:"pin,omitempty"`
+	K    int      `json:"k,omitempty"` // rpcfail: the next K redirected Consensus calls that reach this member fail before they commit
 }
 
 type vR2Case struct {
@@ -45,10 +48,28 @@ type vR2Case struct {
 
 type vR2ConsSvc struct{ n *vR2Node }
 
+// fault injection at the leader's end of a redirect: the call fails without committing anything (what a leader that has
+// just lost its quorum, or whose commit times out, answers)
+func (s *vR2ConsSvc) injected() bool {
+	if atomic.AddInt32(&s.n.failRPC, -1) >= 0 {
+		atomic.AddInt32(&s.n.injectedN, 1)
+		return true
+	}
+	atomic.StoreInt32(&s.n.failRPC, 0)
+	atomic.AddInt32(&s.n.realN, 1)
+	return false
+}
+
 func (s *vR2ConsSvc) LogPin(ctx context.Context, in *api.Pin, out *struct{}) error {
+	if s.injected() {
+		return errors.New("verif: injected failure of the redirected commit")
+	}
 	return s.n.cc.LogPin(ctx, in)
 }
 func (s *vR2ConsSvc) LogUnpin(ctx context.Context, in *api.Pin, out *struct{}) error {
+	if s.injected() {
+		return errors.New("verif: injected failure of the redirected commit")
+	}
 	return s.n.cc.LogUnpin(ctx, in)
 }
 func (s *vR2ConsSvc) AddPeer(ctx context.Context, in peer.ID, out *struct{}) error {
@@ -68,6 +89,8 @@ type vR2Node struct {
 	folder string
 	rec    *vC01Recorder
 	up     bool
+	// redirected Consensus calls: still to fail / failed by injection / handed to the real component
+	failRPC, injectedN, realN int32
 }
 
 type vR2Rig struct {
@@ -230,6 +253,22 @@ func vR2SnapID(folder string) string {
 	return meta.ID
 }
 
+func (r *vR2Rig) injectedSince(base int32) int32 {
+	var t int32
+	for _, n := range r.nodes {
+		t += atomic.LoadInt32(&n.injectedN)
+	}
+	return t - base
+}
+
+func (r *vR2Rig) realSince(base int32) int32 {
+	var t int32
+	for _, n := range r.nodes {
+		t += atomic.LoadInt32(&n.realN)
+	}
+	return t - base
+}
+
 func vR2List(cc *Consensus) ([]vC01Pin, bool) {
 	st, err := cc.State(context.Background())
 	if err != nil {
@@ -256,12 +295,23 @@ func vR2Gen(r *vRand, n int) vR2Case {
 			node = r.intn(n)
 		}
 		if r.chance(62) {
-			return vR2Cmd{Op: "pin", Node: node, Pin: vC01GenPin(r, ncids, r.intn(2), false)}
+			p := vC01GenPin(r, ncids, r.intn(2), false)
+			if r.chance(15) {
+				p.Name = vC01BadName // unserialisable: must be refused wherever it is submitted
+			}
+			return vR2Cmd{Op: "pin", Node: node, Pin: p}
 		}
 		return vR2Cmd{Op: "unpin", Node: node, Pin: &vC01Pin{Cid: r.intn(ncids), Type: 2, MaxDepth: -1, Update: -1, Ref: -1}}
 	}
 	for i := 0; i < 3+r.intn(3); i++ {
 		c.Cmds = append(c.Cmds, write())
+	}
+	if n > 1 {
+		// the leader fails redirected commits for a while; a write at a follower must then be reported as failed (or succeed on a retry)
+		c.Cmds = append(c.Cmds, vR2Cmd{Op: "rpcfail", Node: 0, K: 1 + r.intn(5)})
+		w := write()
+		w.Node = 1 + r.intn(n-1)
+		c.Cmds = append(c.Cmds, w, vR2Cmd{Op: "rpcfail", Node: 0, K: 0}, write())
 	}
 	c.Cmds = append(c.Cmds, vR2Cmd{Op: "obs"})
 	if n > 1 {
@@ -318,6 +368,8 @@ func vR2Run(c vR2Case, tag string) (res vR2Result) {
 	var evs []string            // Coq events
 	applied := make([]int, c.N) // pseudo-schedule: how many entries each peer has been given in the trace
 	nlog := 0
+	refused := 0 // unserialisable pins refused, as they must be
+	out_injected := 0 // ops whose every redirect attempt met the injected failure and that were reported as errors
 	var obsJSON []interface{}
 	restartedAny := false
 	firstPhase := true
@@ -377,9 +429,6 @@ func vR2Run(c vR2Case, tag string) (res vR2Result) {
 			p := *cmd.Pin
 			p.sanitize()
 			p.Origins = nil // S19 is exercised on rig R1
-			if p.Name == vC01BadName {
-				p.Name = 0
-			}
 			var meta [][2]int
 			for _, kv := range p.Meta {
 				if kv[0] != vC01BadName && kv[1] != vC01BadName {
@@ -387,18 +436,37 @@ func vR2Run(c vR2Case, tag string) (res vR2Result) {
 				}
 			}
 			p.Meta = meta
+			if cmd.Op == "unpin" && p.Name == vC01BadName {
+				p.Name = 0
+			}
 			n := resolve(cmd.Node)
 			if n == nil {
 				res.skipped = "no running peer"
 				return
 			}
 			var err error
-			if cmd.Op == "pin" {
+			inj0, real0 := rig.injectedSince(0), rig.realSince(0)
+			if cmd.Op == "pin" && p.Name == vC01BadName {
+				// a pin that cannot be serialised (name not valid UTF-8) is refused by whichever member commits it (S24), so
+				// at a non-leader member the refusal comes back through the redirect to the leader: LogPin must report it.
+				// A nil return is an acknowledgement and is recorded as one (the op is then owed to every replica).
+				if err = n.cc.LogPin(ctx, p.real()); err != nil {
+					refused++
+					continue
+				}
+				cmds = append(cmds, "LPin "+p.coq())
+			} else if cmd.Op == "pin" {
 				err = n.cc.LogPin(ctx, p.real())
 				cmds = append(cmds, "LPin "+p.coq())
 			} else {
 				err = n.cc.LogUnpin(ctx, p.real())
 				cmds = append(cmds, "LUnpin "+p.coq())
+			}
+			if err != nil && rig.injectedSince(inj0) > 0 && rig.realSince(real0) == 0 {
+				// every attempt was answered by the injected failure: the op reached no log, and the caller was told so
+				cmds = cmds[:len(cmds)-1]
+				out_injected++
+				continue
 			}
 			if err != nil {
 				// an unacknowledged op may or may not be in the log: nothing can be said about this run
@@ -407,6 +475,17 @@ func vR2Run(c vR2Case, tag string) (res vR2Result) {
 			}
 			evs = append(evs, fmt.Sprintf("OCommit %d", len(cmds)-1))
 			nlog++
+		case "rpcfail":
+			if n := resolve(cmd.Node); n != nil && n.up {
+				k := cmd.K
+				if k < 0 {
+					k = 0
+				}
+				if k > 8 {
+					k = 8
+				}
+				atomic.StoreInt32(&n.failRPC, int32(k))
+			}
 		case "down":
 			n := resolve(cmd.Node)
 			if n == nil || !n.up {
@@ -541,7 +620,7 @@ func vR2Run(c vR2Case, tag string) (res vR2Result) {
 		return
 	}
 	res.term = fmt.Sprintf("(%d, %s,\n   %s)", c.N, cqList(cmds), "["+strings.Join(evs, ";\n    ")+"]")
-	res.obs = map[string]interface{}{"observations": obsJSON, "log_len": nlog}
+	res.obs = map[string]interface{}{"observations": obsJSON, "log_len": nlog, "unserialisable_refused": refused, "redirect_failures_reported": out_injected}
 	res.nontriv = restartedAny && nlog >= 2
 	return
 }
